@@ -1,12 +1,21 @@
 import PpciVerif.Spec.PPInt
 import PpciVerif.Model.PPExpr
 import PpciVerif.Gen.PPExpr
+import PpciVerif.Proofs.PPParse
 /-!
-# C26 — `#if` expressions (work in progress: table translation)
+# C26 — C preprocessor: `#if` expressions  (PARTIAL)
+
+Property theorems only.  `Spec.PPInt` is the specification (C11 6.10.1: `intmax_t`/`uintmax_t`
+values, the expression grammar with its precedence levels); `Model.PPExpr` is the hand model of
+`CPreProcessor.parse_expression/_binop_take/_eval_tree/OP_MAP` after the `fix:` commits listed in
+findings/C26.json.  Helper lemmas are in `Proofs/PPExpr.lean` and `Proofs/PPParse.lean`.
+
+What is NOT shown: unsigned (`uintmax_t`) arithmetic — false for the code, see `eval_agrees_full`
+and the witnesses below; macro expansion, `defined`, the lexer, character constants (no model).
 -/
 namespace Props.C26
 open Model.PPExpr
-open Spec.PPInt (Sym)
+open Spec.PPInt (Sym Tok Tree PTree UnOp BinOp Deriv yield erase)
 
 /-- Python name of each `OP_MAP` function as `module.__name__` -/
 def OpFn.pyName : OpFn → String
@@ -25,5 +34,89 @@ theorem op_map_matches_source :
         (match e.2.2.2 with | some f => OpFn.pyName f | none => "None"),
         (match e.2.2.2 with | some f => f.probe | none => []))) := by
   decide +kernel
+
+/-! ### parsing: full -/
+
+/-- **The parsed tree is the tree of C's grammar.**  For every derivation tree `t` of a
+    conditional-expression of the `#if` language (any size; `yield t` ranges over ALL sentences of the
+    language), `parse_expression(0)` on the token line `yield t` consumes the whole line and returns the
+    abstract tree of `t` (parentheses dropped; unary `+` builds no node), with the fuel `#if` supplies. -/
+theorem parse_builds_C_tree (t : PTree) (d : Deriv 1 t) :
+    parseExpr (2 * (yield t).length + 2) 0 (yield t) = .ok (ofTree (erase t), []) :=
+  Proofs.PPExpr.parse_sentence d
+
+/-- the result does not depend on the fuel once it suffices (the Python code has no such bound) -/
+theorem parse_fuel_irrelevant (t : PTree) (d : Deriv 1 t) (fuel : Nat) (h : 2 * (yield t).length + 2 ≤ fuel) :
+    parseExpr fuel 0 (yield t) = .ok (ofTree (erase t), []) :=
+  Proofs.PPExpr.parseExpr_mono (Proofs.PPExpr.parse_sentence d) h
+
+/-! ### evaluation: partial -/
+
+/-- the full statement: the evaluator computes the value C prescribes for every tree.  **False for the
+    code** (no `uintmax_t` arithmetic): see `eval_full_fails`. -/
+def eval_agrees_full : Prop :=
+  ∀ (T : Tree) (x : Spec.PPInt.Val), Spec.PPInt.eval T = some x → evalTree (ofTree T) = .ok x.v
+
+/-- **Evaluation on the signed fragment.**  Guard: no constant of the tree is unsigned (no `u` suffix, value
+    ≤ INTMAX_MAX).  Then whenever C defines the value (truncating `/ %`, no overflow, shift counts in range)
+    it is a signed value and `_eval_tree` returns exactly it. -/
+theorem eval_agrees_partial (T : Tree) (hs : Proofs.PPExpr.SignedOnly T) (x : Spec.PPInt.Val)
+    (h : Spec.PPInt.eval T = some x) : x.u = false ∧ evalTree (ofTree T) = .ok x.v :=
+  let ⟨h1, _, h3⟩ := Proofs.PPExpr.eval_signed T hs x h
+  ⟨h1, h3⟩
+
+/-- **The kept group.**  For every sentence of the grammar on the signed fragment: `#if <line>` keeps its
+    group iff C says the value is non-zero (parsing and evaluation composed, as `handle_if_directive` does). -/
+theorem if_group_partial (t : PTree) (d : Deriv 1 t) (hs : Proofs.PPExpr.SignedOnly (erase t)) (b : Bool)
+    (h : Spec.PPInt.taken (erase t) = some b) : evalIf (yield t) = .ok b :=
+  Proofs.PPExpr.evalIf_signed d hs h
+
+/-! ### witnesses and non-vacuity (tests, labelled as such) -/
+
+section examples
+private def n (v : Nat) : Tree := .num v false true
+private def nu (v : Nat) : Tree := .num v true true
+
+/-- `eval_agrees_full` is false: `-1 < 0u` is 0 in C (−1 converts to UINTMAX_MAX), the code computes 1 -/
+theorem eval_full_fails : ¬ eval_agrees_full := by
+  intro h
+  have := h (.bin .lt (.un .neg (n 1)) (nu 0)) ⟨0, false⟩ (by decide +kernel)
+  revert this; decide +kernel
+
+-- more negation witnesses: `0u - 1` is UINTMAX_MAX (code: -1); `~0u` (code: -1); constants above INTMAX_MAX
+example : Spec.PPInt.eval (.bin .sub (nu 0) (n 1)) = some ⟨18446744073709551615, true⟩ ∧
+    evalTree (ofTree (.bin .sub (nu 0) (n 1))) = .ok (-1) := by decide +kernel
+example : Spec.PPInt.eval (.bin .gt (.bin .sub (nu 0) (n 1)) (n 0)) = some ⟨1, false⟩ ∧
+    evalTree (ofTree (.bin .gt (.bin .sub (nu 0) (n 1)) (n 0))) = .ok 0 := by decide +kernel
+example : Spec.PPInt.eval (.bin .eq (.bin .add (.num 0xffffffffffffffff false false) (n 1)) (n 0)) = some ⟨1, false⟩ ∧
+    evalTree (ofTree (.bin .eq (.bin .add (.num 0xffffffffffffffff false false) (n 1)) (n 0))) = .ok 0 := by
+  decide +kernel
+-- the excluded region is exactly where the guard fails
+example : ¬ Proofs.PPExpr.SignedOnly (.bin .lt (.un .neg (n 1)) (nu 0)) := by decide
+-- the guard is satisfiable by non-trivial trees, and the theorems apply to them
+example : Proofs.PPExpr.SignedOnly (.bin .eq (.bin .div (.un .neg (n 7)) (n 2)) (.un .neg (n 3))) := by decide
+example : Spec.PPInt.eval (.bin .eq (.bin .div (.un .neg (n 7)) (n 2)) (.un .neg (n 3))) = some ⟨1, false⟩ := by
+  decide +kernel
+example : Spec.PPInt.eval (.bin .mod (.un .neg (n 7)) (n 2)) = some ⟨-1, false⟩ := by decide +kernel
+-- `1 + 2 * 3 - 4` : a sentence, its derivation and the tree C prescribes
+private def s1 : PTree := .bin .sub (.bin .add (.num 1 false true) (.bin .mul (.num 2 false true) (.num 3 false true)))
+  (.num 4 false true)
+example : Deriv 1 s1 := by
+  have n12 : ∀ v, Deriv 12 (.num v false true) := fun v => .num v false true
+  have l11 : ∀ v, Deriv 11 (.num v false true) := fun v => .up (n12 v)
+  have m : Deriv 11 (.bin .mul (.num 2 false true) (.num 3 false true)) := Deriv.bin .mul (l11 2) (n12 3)
+  have a : Deriv 10 (.bin .add (.num 1 false true) (.bin .mul (.num 2 false true) (.num 3 false true))) :=
+    Deriv.bin .add (.up (l11 1)) m
+  have s : Deriv 10 s1 := Deriv.bin .sub a (l11 4)
+  exact .up (.up (.up (.up (.up (.up (.up (.up (.up s))))))))
+example : parseExpr 16 0 (yield s1) =
+    .ok (.bin .minus (.bin .plus (.num 1) (.bin .star (.num 2) (.num 3))) (.num 4), []) := by decide +kernel
+-- pre-fix behaviour (2f4b2ca): `-7 / 2` was Python floor division, -4; C prescribes -3
+example : Int.fdiv (-7) 2 = -4 ∧ Spec.PPInt.eval (.bin .div (.un .neg (n 7)) (n 2)) = some ⟨-3, false⟩ := by
+  decide +kernel
+-- undefined in C: no value, the model reports a diagnostic (448e2cd) instead of ZeroDivisionError
+example : Spec.PPInt.eval (.bin .div (n 1) (n 0)) = none ∧
+    evalTree (ofTree (.bin .div (n 1) (n 0))) = .error .CompilerError := by decide +kernel
+end examples
 
 end Props.C26
